@@ -158,6 +158,9 @@ func FreePort() int {
 func (b *Backend) Addr() string { return b.addr }
 func (b *Backend) URL() string  { return "http://" + b.addr }
 
+// SetModelsOpenAI sets the listing. The body is a polyglot: an OpenAI-style "data" array (read by the
+// openai / vllm / sglang / llamacpp / lm-studio parsers) and an Ollama-style "models" array (read by
+// the ollama parser) naming the same models, so every provider type can discover them.
 func (b *Backend) SetModelsOpenAI(models []string) {
 	var sb strings.Builder
 	sb.WriteString(`{"object":"list","data":[`)
@@ -166,6 +169,13 @@ func (b *Backend) SetModelsOpenAI(models []string) {
 			sb.WriteString(",")
 		}
 		fmt.Fprintf(&sb, `{"id":%q,"object":"model","created":1700000000,"owned_by":"verif"}`, m)
+	}
+	sb.WriteString(`],"models":[`)
+	for i, m := range models {
+		if i > 0 {
+			sb.WriteString(",")
+		}
+		fmt.Fprintf(&sb, `{"name":%q,"model":%q,"modified_at":"2024-01-01T00:00:00Z","size":1000,"digest":"sha256:%s","details":{"family":%q,"parameter_size":"%dB","quantization_level":"Q4_0"}}`, m, m, digestOf(m), "fam"+m, 3+len(m))
 	}
 	sb.WriteString(`]}`)
 	b.modelsBody.Store([]byte(sb.String()))
@@ -351,6 +361,11 @@ func readHead(br *bufio.Reader) ([]byte, error) {
 func writeSimple(c net.Conn, status int, ct string, body []byte) {
 	fmt.Fprintf(c, "HTTP/1.1 %d %s\r\nContent-Type: %s\r\nContent-Length: %d\r\n\r\n", status, http.StatusText(status), ct, len(body))
 	c.Write(body)
+}
+
+func digestOf(s string) string {
+	sum := sha256.Sum256([]byte(s))
+	return hex.EncodeToString(sum[:])
 }
 
 // Token is the i-th body token of attempt a on backend e; every delivered byte can be attributed.
